@@ -5,7 +5,7 @@ import vf
 
 PID = "C11"
 MODULES = ["foo", "foo.a", "foo.bar", "foo.bar.qux", "foobar", "foobar.m", "foo_bar", "zed", "fo"]
-NAMESETS = [["foo"], ["foo.bar"], ["foobar"], ["foo", "foobar"], ["zed"], ["foo.a"], ["fo"], ["foo", "foo_bar", "foobar"], ["foo.bar", "zed"], ["foo_bar"], ["foo.bar.qux", "fo"], ["foo", "foo.bar"]]
+NAMESETS = [["foo", "foo.a"], ["foo.a", "foo"], ["foobar", "foobar.m", "foo"], ["foo"], ["foo.bar"], ["foobar"], ["foo", "foobar"], ["zed"], ["foo.a"], ["fo"], ["foo", "foo_bar", "foobar"], ["foo.bar", "zed"], ["foo_bar"], ["foo.bar.qux", "fo"], ["foo", "foo.bar"]]
 BODY = "def f(x: int) -> int:\n    return x\n\nclass K:\n    def m(self, x: int) -> int:\n        return x\n"
 
 
@@ -68,6 +68,9 @@ def gen_history(rng):
 
 
 CATALOGUE = [
+    # a hooked name beneath another hooked name: modules beneath the OUTER name that sort after the inner one are still beneath a hooked name
+    [["install", ["foo", "foo.a"], "A", 0, True], ["import", "foo.bar"], ["import", "foo.bar.qux"], ["import", "foo.a"], ["import", "foobar"]],
+    [["install", ["foo.a", "foo"], "B", 0, False], ["import", "foo.bar.qux"], ["import", "fo"]],
     # two install calls with the SAME names and checker; one handle is released twice (its `with` exit, then uninstall()): the other stays
     [["install", ["foo"], "A", 0, True], ["install", ["foo"], "A", 1, True], ["import", "foo.a"], ["uninstall", 1, "exit"], ["uninstall", 1, "uninstall"], ["import", "foo.bar"], ["uninstall", 0, "uninstall"], ["import", "foo.bar.qux"]],
     [["install", ["zed", "fo"], None, 0, True], ["install", ["zed", "fo"], None, 1, True], ["uninstall", 0, "uninstall"], ["uninstall", 0, "exit"], ["uninstall", 0, "uninstall"], ["import", "zed"], ["uninstall", 1, "exit"], ["import", "fo"]],
